@@ -107,6 +107,10 @@ func (ch *dagChannel) reportDependencies(dependencies []string) {
 }
 
 func (ch *dagChannel) reportSkip(keys []string) bool {
+	// the answer is "became skipped": the caller propagates the skip to the successors of every node it is told about,
+	// once is enough (answering "is skipped" on every report doubles the work at each node of a skipped chain)
+	wasSkipped := ch.Skipped
+
 	for _, k := range keys {
 		if _, ok := ch.ControlPredecessors[k]; ok {
 			ch.ControlPredecessors[k] = dependencyStateSkipped
@@ -135,7 +139,7 @@ func (ch *dagChannel) reportSkip(keys []string) bool {
 		}
 	}
 
-	return allSkipped
+	return allSkipped && !wasSkipped
 }
 
 func (ch *dagChannel) get(isStream bool) (any, bool, error) {
